@@ -30,7 +30,7 @@ def make_config(case):
                 "features": ["feat_a", "feat_b"],
                 "aggregates": aggs,
                 "fixed_effect": fes,
-                "baseline_pointer": {"dem": "dem", "gop": "gop", "turnout": "turnout"},
+                "baseline_pointer": case.get("baseline_pointer") or {"dem": "dem", "gop": "gop", "turnout": "turnout"},
             }
         ]
     }
